@@ -370,6 +370,52 @@ def kept_configuration_is_not_consumed(ctx):
               'copies only), so a restart or a second module using the same Param(...) starts without these entries', f)
 
 
+@rule('C09.R7b', min_instances=1)
+def server_configuration_is_not_consumed(ctx):
+    """SecNode.get_module_instance creates a module from srv.module_cfg[<name>] - the dict the Server keeps and uses again for a
+    restart.  Whatever consumes entries (`opts.pop('cls')`, the module constructor popping what it has treated) works on a
+    private copy: the mutating call - in the method itself or in a helper the dict is handed to - comes after `opts = dict(opts)`"""
+    m = ctx.m
+    f = m.method('frappy.secnode.SecNode', 'get_module_instance', inherited=False)
+    ctx.analysed(f)
+    cfg = CFG(f.node, m, f.module)
+    rd = ReachingDefs(cfg, f.node)
+    MUT = {'pop', 'popitem', 'clear', 'update', 'setdefault'}
+    raw = {t.id for n in body_walk(f.node) if isinstance(n, ast.Assign) and 'module_cfg' in src(n.value) and not
+           (isinstance(n.value, ast.Call) and dotted(n.value.func) in ('dict', 'copy.copy', 'copy.deepcopy', 'deepcopy')) for t in n.targets if isinstance(t, ast.Name)}
+    if not raw:
+        raise AnchorMissing('lookup of the module configuration (srv.module_cfg) not found in get_module_instance')
+
+    def is_raw_at(use, name_node):
+        oo = rd.origins_at(use, name_node)
+        return any('module_cfg' in src(o) and not (isinstance(o, ast.Call) and dotted(o.func) in ('dict', 'copy.copy', 'copy.deepcopy', 'deepcopy')) for o in oo)
+    n = 0
+    for c in calls_in(f.node):
+        # direct mutation
+        if call_attr(c) in MUT and isinstance(c.func.value, ast.Name) and c.func.value.id in raw:
+            n += 1
+            ctx.check(not is_raw_at(c, c.func.value), f'{f.qualname}:the kept configuration is not consumed', c, 'applied to a private copy',
+                      f'`{src(c)}` removes an entry from the dict stored in srv.module_cfg itself: the next creation from the same configuration (a restart of the '
+                      'server, a retry) finds the entry gone - the module can not be created a second time', f)
+        # handed to a helper method / a constructor that consumes entries
+        for a in c.args:
+            if isinstance(a, ast.Name) and a.id in raw and is_raw_at(c, a):
+                consumes = True
+                if isinstance(c.func, ast.Attribute) and dotted(c.func.value) == 'self' and m.has_method('frappy.secnode.SecNode', c.func.attr):
+                    h = m.method('frappy.secnode.SecNode', c.func.attr)
+                    idx = c.args.index(a) + 1
+                    prm = h.node.args.args[idx].arg if len(h.node.args.args) > idx else None
+                    consumes = any(call_attr(x) in MUT and isinstance(x.func.value, ast.Name) and x.func.value.id == prm for x in calls_in(h.node))
+                elif call_attr(c) in ('get', 'debug', 'info', 'error', 'warning') or dotted(c.func) in ('dict', 'len', 'repr', 'str', 'list', 'sorted'):
+                    consumes = False
+                n += 1
+                ctx.check(not consumes, f'{f.qualname}:the kept configuration is not consumed', c, 'helpers get a private copy',
+                          f'`{src(c)}` hands the dict stored in srv.module_cfg itself to code that removes entries from it (`cls`, the properties a module has '
+                          'treated): a second creation from the same configuration fails', f)
+    if not n:
+        ctx.ok(f'{f.qualname}:the kept configuration is not consumed', f.node, 'only a copy (dict(opts)) is consumed', f)
+
+
 @rule('C09.R2b', min_instances=8)
 def container_copies_copy_their_members(ctx):
     """shared with C03.R2: Parameter.clone gives every instance a copy() of the class-level datatype; for arrays, tuples and
@@ -425,7 +471,7 @@ def inherited_properties_are_applied_to_a_private_datatype(ctx):
                   'changes the limits that every later subclass of the base class inherits', f)
 
 
-@rule('C09.R2d', min_instances=3)
+@rule('C09.R2d', min_instances=1)
 def clones_own_their_datatypes(ctx):
     """presence: Parameter.clone stores a copy of the datatype, Command.clone a copy of the argument and of the result type (an
     instance created from the class, or a subclass override, must not hold the class's datatype objects - setProperty /
@@ -438,6 +484,14 @@ def clones_own_their_datatypes(ctx):
             copies = [s for t, v, s in attr_stores(f.node) if t.attr == a and isinstance(v, ast.Call) and call_attr(v) == 'copy']
             copies += [n for n in body_walk(f.node) if isinstance(n, ast.Assign) and isinstance(n.value, ast.Call) and dotted(n.value.func) == 'dict'
                        and any(k.arg == a and isinstance(k.value, ast.Call) and call_attr(k.value) == 'copy' for k in n.value.keywords)]
+            if not copies:
+                # another scheme: the property dicts are rewritten with copies under the keys 'argument' / 'result' before they are
+                # applied (a nested helper / a comprehension): a copy is made, whether it is the one that stays is not decided
+                txt = [x for x in ast.walk(f.node) if isinstance(x, ast.Constant) and x.value == a]
+                cps = [x for x in ast.walk(f.node) if isinstance(x, ast.Call) and call_attr(x) == 'copy']
+                if txt and cps:
+                    ctx.undecided(f'{f.qualname}:{a} is copied', f.node, f"copies are made for the key '{a}' before the properties are applied", f)
+                    continue
             ctx.check(bool(copies), f'{f.qualname}:{a} is copied', f.node, f'a .copy() of the {a} is stored in the clone',
                       f'{f.qualname} never stores a copy of `{a}`: the clone (every module instance, every subclass override) shares the '
                       f'{a} datatype object with the class it was cloned from', f)
